@@ -12,6 +12,13 @@ from sievelib.factory import FiltersSet, FilterAlreadyExists
 from sievelib.parser import Parser
 
 NAMES = ["a", "b", "é c"]
+# as passed by the caller: names may be bytes (decoded by the API); new names of update/replace also the empty string
+NAME_ARGS = ["a", "b", "é c", b"a"]
+NEWNAME_ARGS = ["a", "b", "é c", b"b", ""]
+
+
+def _s(x):
+    return x.decode("utf-8") if isinstance(x, bytes) else x
 DEFS = [
     ([("Subject", ":is", "x")], [("fileinto", "F1")], "anyof"),
     ([("size", ":over", "100k"), ("notexists", "X-A", "X-B")], [("redirect", "u@example.org"), ("stop",)], "allof"),
@@ -26,16 +33,22 @@ N0LO = int(os.environ.get("C12_N0LO", "0"))
 NN = int(os.environ.get("C12_NN", "3"))
 ND = int(os.environ.get("C12_ND", "3"))
 N0HI = int(os.environ.get("C12_N0HI", str(NN)))
+NN1 = NN + 1 if NN == 3 else NN        # + the bytes alias
+NN2 = (NN + (2 if MODE == "c12" else 1)) if NN == 3 else NN   # + a bytes name (and, for C12, the empty string)
 PRETEXT = int(os.environ.get("C11_PRETEXT", "0"))
-PRETEXTS = [("# Filter: ", "# Description: "), ("# rule:", "# about:")]
+PRETEXTS = [("# Filter: ", "# Description: "), ("# rule:", "# about:"), ("# [Filter] (name)? ", "#* desc | ")]
 # the last one carries the *other* configuration's marker text (allowed: it is not this set's marker)
 DESCS_BY_PRETEXT = [[None, "plain text", "été # : \"q\"", "# rule: other marker"],
+                    [None, "plain text", "été # : \"q\"", "# Filter: other marker"],
                     [None, "plain text", "été # : \"q\"", "# Filter: other marker"]]
 
 
 def reconfigure():
-    global MODE, OP0LO, OP0HI, N0LO, N0HI, PRETEXT, NN, ND
+    global MODE, OP0LO, OP0HI, N0LO, N0HI, PRETEXT, NN, ND, NN1, NN2
     NN = int(os.environ.get("C12_NN", "3"))
+    NN1 = NN + 1 if NN == 3 else NN
+    MODE = os.environ.get("C12_MODE", "c12")
+    NN2 = (NN + (2 if MODE == "c12" else 1)) if NN == 3 else NN
     ND = int(os.environ.get("C12_ND", "3"))
     MODE = os.environ.get("C12_MODE", "c12")
     OP0LO = int(os.environ.get("C12_OP0LO", "0"))
@@ -76,17 +89,18 @@ def _call(fn, *a, **kw):
 
 def step(fs, model, op, n1, n2, k, d, log):
     """apply one concrete operation to both; compare; returns description"""
-    name, name2 = NAMES[n1], NAMES[n2]
+    name, name2 = NAME_ARGS[n1], NEWNAME_ARGS[n2]
+    mname, mname2 = _s(name), _s(name2)
     opn = OPS[op]
     if opn == "add":
         c, a, m = DEFS[k]
         got = _call(fs.addfilter, name, c, a, m)
-        want = _call2(model.add, name, k)
+        want = _call2(model.add, mname, k)
         desc = "addfilter(%r, def%d)" % (name, k)
     elif opn == "update":
         c, a, m = DEFS[k]
         got = _call(fs.updatefilter, name, name2, c, a, m)
-        want = _call2(model.update, name, name2, k)
+        want = _call2(model.update, mname, mname2, k)
         desc = "updatefilter(%r, %r, def%d)" % (name, name2, k)
     elif opn == "replace":
         # a content object for definition k built through the same set (as an application that
@@ -95,26 +109,27 @@ def step(fs, model, op, n1, n2, k, d, log):
         fs.addfilter("\0tmp", c, a, m)
         content = fs.filters.pop()["content"]
         newname = None if d == 0 else name2
+        mnewname = None if d == 0 else mname2
         descr = DESCS_BY_PRETEXT[PRETEXT][d] if MODE == "c11" else None
         got = _call(fs.replacefilter, name, content, newname, descr)
-        want = _call2(model.replace, name, k, newname, descr)
+        want = _call2(model.replace, mname, k, mnewname, descr)
         desc = "replacefilter(%r, def%d, %r, %r)" % (name, k, newname, descr)
     elif opn == "remove":
         got = _call(fs.removefilter, name)
-        want = _call2(model.remove, name)
+        want = _call2(model.remove, mname)
         desc = "removefilter(%r)" % name
     elif opn == "enable":
         got = _call(fs.enablefilter, name)
-        want = _call2(model.enable, name)
+        want = _call2(model.enable, mname)
         desc = "enablefilter(%r)" % name
     elif opn == "disable":
         got = _call(fs.disablefilter, name)
-        want = _call2(model.disable, name)
+        want = _call2(model.disable, mname)
         desc = "disablefilter(%r)" % name
     elif opn == "move":
         direction = "up" if d == 0 else "down"
         got = _call(fs.movefilter, name, direction)
-        want = _call2(model.move, name, direction)
+        want = _call2(model.move, mname, direction)
         desc = "movefilter(%r, %r)" % (name, direction)
     elif opn == "get":
         got = _call(fs.getfilter, name)
@@ -223,11 +238,11 @@ def _history_body(info, ops):
     for i, (op, n1, n2, k, d) in enumerate(ops):
         if first:
             co = OP0LO + P.decode(op - OP0LO, OP0HI - OP0LO)
-            c1 = N0LO + P.decode(n1 - N0LO, N0HI - N0LO)
+            c1 = N0LO + P.decode(n1 - N0LO, min(N0HI, NN1) - N0LO)
             first = False
         else:
             co = P.decode(op, NOPS)
-            c1 = P.decode(n1, NN)
+            c1 = P.decode(n1, NN1)
         opn = OPS[co]
         ck = P.decode(k, ND) if opn in ("add", "update", "replace") else 0
         if ND == 1:
@@ -239,7 +254,7 @@ def _history_body(info, ops):
             cd = P.decode(d, 4 if MODE == "c11" else 2)
         else:
             cd = 0
-        c2 = P.decode(n2, NN) if (opn == "update" or (opn == "replace" and cd != 0)) else 0
+        c2 = P.decode(n2, NN2) if (opn == "update" or (opn == "replace" and cd != 0)) else 0
         conc.update({"op%d" % i: co, "n%d" % i: c1, "m%d" % i: c2, "k%d" % i: ck, "d%d" % i: cd})
         info["concrete"] = dict(conc)
         for j in range(i + 1, len(ops)):
@@ -254,8 +269,8 @@ def _history_body(info, ops):
 
 def hist2(op0: int, n0: int, m0: int, k0: int, d0: int, op1: int, n1: int, m1: int, k1: int, d1: int) -> bool:
     """
-    pre: OP0LO <= op0 < OP0HI and N0LO <= n0 < N0HI and 0 <= m0 < NN and 0 <= k0 < ND and 0 <= d0 < 4
-    pre: 0 <= op1 < NOPS and 0 <= n1 < NN and 0 <= m1 < NN and 0 <= k1 < ND and 0 <= d1 < 4
+    pre: OP0LO <= op0 < OP0HI and N0LO <= n0 < N0HI and 0 <= m0 < NN2 and 0 <= k0 < ND and 0 <= d0 < 4
+    pre: 0 <= op1 < NOPS and 0 <= n1 < NN1 and 0 <= m1 < NN2 and 0 <= k1 < ND and 0 <= d1 < 4
     post: _
     """
     return run("hist2", _history_body, dict(ops=[(op0, n0, m0, k0, d0), (op1, n1, m1, k1, d1)]))
@@ -264,9 +279,9 @@ def hist2(op0: int, n0: int, m0: int, k0: int, d0: int, op1: int, n1: int, m1: i
 def hist3(op0: int, n0: int, m0: int, k0: int, d0: int, op1: int, n1: int, m1: int, k1: int, d1: int,
           op2: int, n2: int, m2: int, k2: int, d2: int) -> bool:
     """
-    pre: OP0LO <= op0 < OP0HI and N0LO <= n0 < N0HI and 0 <= m0 < NN and 0 <= k0 < ND and 0 <= d0 < 4
-    pre: 0 <= op1 < NOPS and 0 <= n1 < NN and 0 <= m1 < NN and 0 <= k1 < ND and 0 <= d1 < 4
-    pre: 0 <= op2 < NOPS and 0 <= n2 < NN and 0 <= m2 < NN and 0 <= k2 < ND and 0 <= d2 < 4
+    pre: OP0LO <= op0 < OP0HI and N0LO <= n0 < N0HI and 0 <= m0 < NN2 and 0 <= k0 < ND and 0 <= d0 < 4
+    pre: 0 <= op1 < NOPS and 0 <= n1 < NN1 and 0 <= m1 < NN2 and 0 <= k1 < ND and 0 <= d1 < 4
+    pre: 0 <= op2 < NOPS and 0 <= n2 < NN1 and 0 <= m2 < NN2 and 0 <= k2 < ND and 0 <= d2 < 4
     post: _
     """
     return run("hist3", _history_body, dict(ops=[(op0, n0, m0, k0, d0), (op1, n1, m1, k1, d1), (op2, n2, m2, k2, d2)]))
@@ -275,10 +290,10 @@ def hist3(op0: int, n0: int, m0: int, k0: int, d0: int, op1: int, n1: int, m1: i
 def hist4(op0: int, n0: int, m0: int, k0: int, d0: int, op1: int, n1: int, m1: int, k1: int, d1: int,
           op2: int, n2: int, m2: int, k2: int, d2: int, op3: int, n3: int, m3: int, k3: int, d3: int) -> bool:
     """
-    pre: OP0LO <= op0 < OP0HI and N0LO <= n0 < N0HI and 0 <= m0 < NN and 0 <= k0 < ND and 0 <= d0 < 4
-    pre: 0 <= op1 < NOPS and 0 <= n1 < NN and 0 <= m1 < NN and 0 <= k1 < ND and 0 <= d1 < 4
-    pre: 0 <= op2 < NOPS and 0 <= n2 < NN and 0 <= m2 < NN and 0 <= k2 < ND and 0 <= d2 < 4
-    pre: 0 <= op3 < NOPS and 0 <= n3 < NN and 0 <= m3 < NN and 0 <= k3 < ND and 0 <= d3 < 4
+    pre: OP0LO <= op0 < OP0HI and N0LO <= n0 < N0HI and 0 <= m0 < NN2 and 0 <= k0 < ND and 0 <= d0 < 4
+    pre: 0 <= op1 < NOPS and 0 <= n1 < NN1 and 0 <= m1 < NN2 and 0 <= k1 < ND and 0 <= d1 < 4
+    pre: 0 <= op2 < NOPS and 0 <= n2 < NN1 and 0 <= m2 < NN2 and 0 <= k2 < ND and 0 <= d2 < 4
+    pre: 0 <= op3 < NOPS and 0 <= n3 < NN1 and 0 <= m3 < NN2 and 0 <= k3 < ND and 0 <= d3 < 4
     post: _
     """
     return run("hist4", _history_body, dict(ops=[(op0, n0, m0, k0, d0), (op1, n1, m1, k1, d1), (op2, n2, m2, k2, d2),
